@@ -35,7 +35,7 @@ public:
 
     void need(size_t n);
 
-// basic types, WARNING: length unchecked!
+// basic types, length checked (throws parse_error when reading beyond the buffer)
     uint8_t  u8();
     uint16_t u16();
     uint32_t u32();
@@ -54,7 +54,7 @@ public:
     inline void read(float &v)    {v = flt();}
     void read(std::string &v);
 
-// basic types, WARNING: length unchecked!
+// length checked (throws parse_error when reading beyond the buffer)
     void     padding(uint8_t n);
     template<uint8_t N> void reserved();
     template<size_t N> void read(std::array<uint8_t, N> &arr);
